@@ -137,6 +137,15 @@ def eval_iter(case):
         if tail_settings(it) != ():
             o.fail('iter-item-not-closed', '%s item %d' % (describe(v), i))
             break
+    # iterations are independent of each other: a second one started while the first is still alive
+    if len(t) >= 2:
+        it1 = iter(v)
+        first = next(it1)
+        second_run = [x.base_str for x in v]
+        rest = [x.base_str for x in it1]
+        pairs = [(a_.base_str, b_.base_str) for a_, b_ in zip(v, v)]
+        if first.base_str != t[0] or second_run != list(t) or rest != list(t[1:]) or pairs != [(c, c) for c in t]:
+            o.fail('iter-not-independent', '%s: interleaved iterations gave %r / %r / %r' % (describe(v), second_run, rest, pairs[:4]))
     o.nontrivial = change_points(per) >= 1
     o.key = [t, per]
     return o
